@@ -344,6 +344,9 @@ func dataKeys(unicode bool) []Action {
 	}
 	// bytes bound to nothing
 	out = append(out, Act("key:unbound-csi", "\x1b[99~"), Act("key:0x80", "\x80"), Act("key:nul", "\x00"))
+	// bytes shaped like a cursor position report that nobody asked for (a late answer to an
+	// earlier program's query, a paste): the key reader treats that shape specially
+	out = append(out, Act("key:unsolicited-cursor-report", "\x1b[5;5R"), Act("key:report-glued-to-keys", "a\x1b[12;40Rb"))
 	return out
 }
 
